@@ -3,7 +3,7 @@
    The definitions are those of Model/C18.v, the same ones the correspondence evaluates against
    partitura/musicanalysis/performance_codec.py on every run. *)
 From Coq Require Import ZArith QArith Qabs List Sorting.Sorted Sorting.Permutation Reals.
-From PV Require Import Lib.Base Lib.Round Model.C18 Model.C18_Check Proofs.C18 Proofs.C18_spec Proofs.C18_tempo Proofs.C18_real Proofs.C18_glue Gen.C18_norm Proofs.C18_norm.
+From PV Require Import Lib.Base Lib.Round Model.C18 Model.C18_Check Proofs.C18 Proofs.C18_spec Proofs.C18_tempo Proofs.C18_real Proofs.C18_glue Gen.C18_norm Proofs.C18_norm Model.C18_Hist Proofs.C18_hist.
 Import ListNotations.
 #[local] Open Scope Q_scope.
 
@@ -368,3 +368,45 @@ Theorem normalisation_table_reflected :
      rescale_n idx c == rescale_roles roles c).
 Proof. exact norm_table_reflected_lemma. Qed.
 Print Assumptions normalisation_table_reflected.
+
+(* ---------- state carried between calls (Model/C18_Hist.v) ----------
+   The caller's objects live across calls and are edited in place between them (hop: a note lengthened, moved,
+   respelled, renamed, removed, added, the beat columns replaced; the score object replaced by another; the
+   performance / the alignment edited).  For EVERY history: the k-th round of calls shows exactly what the state at
+   that call determines ... *)
+Theorem history_observations_current : forall ops s, hrun s ops = map observe (call_states s ops).
+Proof. exact hrun_current_lemma. Qed.
+Print Assumptions history_observations_current.
+
+(* ... i.e. O2 holds of every round against the CURRENT state: the matched score's rows are a permutation of the
+   current alignment's matches present in the current score and performance, ordered by the current score onsets
+   and pitches; the matched-note table is the current one *)
+Theorem history_table_spec : forall ops s k st,
+  nth_error (call_states s ops) k = Some st ->
+  exists o, nth_error (hrun s ops) k = Some o /\
+    Permutation (fst o) (matched_idx (map s_id (h_sna st)) (map p_id (h_pna st)) (h_al st)) /\
+    Sorted (fun a b => lex2_leb (key2 (h_sna st) a) (key2 (h_sna st) b) = true) (fst o) /\
+    snd o = matched_idx (map s_id (h_sna st)) (map p_id (h_pna st)) (h_al st).
+Proof. exact history_table_spec_lemma. Qed.
+Print Assumptions history_table_spec.
+
+(* the statement is not vacuous: a machine that keeps the score-side note table per score object and never
+   invalidates it (seeded change g) shows the OLD table after a note was added in place (and the right one when the
+   score object is replaced instead) ... *)
+Theorem history_memo_refuted :
+  let s := mk_h 1%Z [(0%Z, 0, 1, 0%Z, 60%Z)] [(10%Z, 1, 1 # 2, 64%Z); (11%Z, 2, 1 # 2, 70%Z)] [(0%Z, 0%Z, 10%Z)] in
+  let ops := [HCall; HScore (EAdd (1%Z, 1, 1, 4%Z, 62%Z)); HAlign [(0%Z, 0%Z, 10%Z); (0%Z, 1%Z, 11%Z)]; HCall] in
+  hrun s ops = [([(0, 0)], [(0, 0)]); ([(0, 0); (1, 1)], [(0, 0); (1, 1)])]%nat /\
+  hrun_memo [] s ops = [([(0, 0)], [(0, 0)]); ([(0, 0)], [(0, 0)])]%nat /\
+  hrun_memo [] s (HCall :: HReplace 2%Z :: tl ops) = hrun s ops.
+Proof. exact hrun_memo_refuted_example. Qed.
+Print Assumptions history_memo_refuted.
+
+(* ... and ONLY an in-place edit of the score tells the two machines apart: on histories without one (what a check
+   that builds its input, calls once and judges can produce) they agree -- why the history stream is needed *)
+Theorem history_memo_needs_edit : forall ops s c,
+  forallb (fun o => negb (edits_score o)) ops = true ->
+  (forall k t, lookup_tab k c = Some t -> t = h_sna s) ->
+  hrun_memo c s ops = hrun s ops.
+Proof. exact hrun_memo_no_edit_lemma. Qed.
+Print Assumptions history_memo_needs_edit.
